@@ -272,7 +272,7 @@ func cmdCheck(args []string) int {
 	var undecided []*Obligation
 	knownSeen := map[string]bool{}
 	for _, o := range all {
-		ok := o.Status == "discharged" || o.Status == "covered" || o.Status == "cover-inconclusive"
+		ok := o.Status == "discharged" || o.Status == "covered" || o.Status == "covered-ground" || o.Status == "cover-inconclusive"
 		if ok {
 			continue
 		}
@@ -344,12 +344,15 @@ func cmdCheck(args []string) int {
 		}
 		solverSecs += o.Seconds
 	}
-	nCover, nCovered, nCoverInc := 0, 0, 0
+	nCover, nCovered, nCoverInc, nCoverGround := 0, 0, 0, 0
 	for _, o := range all {
 		if o.Cover {
 			nCover++
-			if o.Status == "covered" {
+			if o.Status == "covered" || o.Status == "covered-ground" {
 				nCovered++
+			}
+			if o.Status == "covered-ground" {
+				nCoverGround++
 			}
 			if o.Status == "cover-inconclusive" {
 				nCoverInc++
@@ -428,13 +431,16 @@ func cmdCheck(args []string) int {
 	if nCoverInc > 0 {
 		fmt.Printf("(%d reachability covers inconclusive: not refuted, not proved satisfiable)\n", nCoverInc)
 	}
+	if nCoverGround > 0 {
+		fmt.Printf("(%d reachability covers decided on the quantifier-free part of the facts only)\n", nCoverGround)
+	}
 	fmt.Printf("property %s tier %s: %d obligations, %d discharged, %d/%d covers, %d undecided, %d known findings, %d violations (load %.1fs, generate %.1fs, solvers %.1fs cpu, wall %.1fs)\n",
 		*prop, *tier, nObl, nDis, nCovered, nCover, len(undecided), len(res.Known), len(viols), tLoad, tGen, solverSecs, res.Wall)
 
 	if *update {
 		var nb []baselineEntry
 		for _, o := range all {
-			if o.Status == "discharged" || o.Status == "covered" || o.Status == "cover-inconclusive" {
+			if o.Status == "discharged" || o.Status == "covered" || o.Status == "covered-ground" || o.Status == "cover-inconclusive" {
 				nb = append(nb, baselineEntry{o.Name, o.Kind, roundTo(o.Seconds, 2)})
 			}
 		}
